@@ -300,18 +300,38 @@ def simulate_library(r, method='nla', contigs=None, n_cells=3, n_sites=10, umi_l
                 sites += er.sample([(name, 0), (name, ln - 4)], er.randint(1, 2))
             else:
                 sites += er.sample([(name, 1), (name, ln - 2)], er.randint(1, 2))
+                if er.random() < 0.5:
+                    # neighbouring cuts on the very first bases (ligated base 1, 0, -1: sites 0, -1, -2) that share cell, strand and UMIs: three
+                    # molecules, told apart by their site only
+                    sites += [(name, 1), (name, 0), (name, -1)]
     # plant motifs, dropping sites that would overlap an already planted motif
     planted = []
     for name, pos in sites:
-        if any(n == name and abs(p - pos) < 8 for n, p in planted):
+        if (name, pos) in planted:
+            continue
+        if (method == 'nla' or pos not in (-1, 0, 1)) and any(n == name and abs(p - pos) < 8 for n, p in planted):
             continue
         planted.append((name, pos))
         if method == 'nla':
             gen.plant(name, pos)
+    edge_umis = {}
     for name, pos in planted:
-        for cell in r.sample(cells, r.randint(1, len(cells))):
-            for strand in ([False, True] if r.random() < 0.3 else [r.random() < p_reverse]):
+        at_start = method != 'nla' and pos in (-1, 0, 1)
+        for cell in (r.sample(cells, r.randint(1, len(cells))) if not at_start else cells[:1]):
+            for strand in ([False, True] if r.random() < 0.3 else [r.random() < p_reverse]) if not at_start else [False]:
                 base_umis = []
+                if at_start:
+                    base_umis = edge_umis.setdefault((name, cell), [rand_dna(r, umi_len)])
+                    for u in base_umis:
+                        for _ in range(r.randint(1, 2)):
+                            fr, tr = make_fragment(gen, r, rid, case_id, method, cell, name, pos, False, u, r.randint(*frag_range), r1_len=read_len, r2_len=read_len,
+                                                   chic_trimmed=chic_trimmed, lib=lib)
+                            if fr is None:
+                                continue
+                            recs.extend(fr)
+                            truths[rid] = tr
+                            rid += 1
+                    continue
                 for _ in range(r.randint(*umis_per_site)):
                     if base_umis and r.random() < p_umi_neighbour:
                         u = mutate_umi(r, r.choice(base_umis), r.choice([1, 1, 2]))
